@@ -179,13 +179,28 @@ def _api_parser(st, facts, foot, ia):
     if o is None or o.state is not st:
         return None
     me = st.new_cell(o.value)
-    for body, arg in ((sf, foot), (sa, ia)):
+    v0 = I.resolve(st, st.store.get(me))
+    before = {k: repr(I.resolve(st, x)) for k, x in v0.fields.items()} if isinstance(v0, A.Struct) else {}
+    # each value is set twice: what the parser uses is the value given last (a setter that keeps the first one shows)
+    old_f = A.Struct(foot.adt, None, {"0": A.Seq("earlier.footer", A.Aff.sym("len(earlier.footer)"), kind="str")})
+    old_a = A.Struct(ia.adt, None, {"0": A.Seq("earlier.assertion", A.Aff.sym("len(earlier.assertion)"), kind="str")})
+    for body, arg in ((sf, old_f), (sa, old_a), (sf, foot), (sa, ia)):
         o = one(I.run(body, [A.Ptr(me), arg], st))
         if o is None or o.state is not st:
             return None
     del st.cond[n_cond:], st.events[n_ev:]
     v = I.resolve(st, st.store.get(me))
-    return v if isinstance(v, A.Struct) and {"claims", "claim_validators"} <= set(v.fields) else None
+    if not (isinstance(v, A.Struct) and {"claims", "claim_validators"} <= set(v.fields)):
+        return None
+    # a field the setters leave as default() made it is state some other method may have written before this call (a remembered token,
+    # a cache): it is unknown here, not "freshly constructed"
+    f = {}
+    for k, x in v.fields.items():
+        xr = I.resolve(st, x)
+        phantom = xr is A.UNIT or (isinstance(xr, A.Struct) and (xr.adt or "").startswith("core::marker::PhantomData"))
+        if k in ("claims", "claim_validators") or phantom or before.get(k) != repr(xr):
+            f[k] = x
+    return A.Struct(v.adt, None, f)
 
 
 def api_state_decides(facts):
@@ -211,7 +226,7 @@ def parser_value(st, cfg=None, facts=None):
         if v is not None:
             f = dict(v.fields)
             f["claims"], f["claim_validators"] = claims, vals      # the two tables: named by the registration contracts (C15.R5, C16.R5)
-            return A.Struct(v.adt, v.variant, f)
+            return A.Struct(v.adt, None, f)
     return A.Struct(GP, None, {"version": A.UNIT, "purpose": A.UNIT, "claims": claims, "claim_validators": vals, "footer": foot, "implicit_assertion": ia})
 
 
